@@ -65,6 +65,12 @@ ASSUMPTIONS = [
     "Newton linear solvers are DEFAULT (direct), GMRES and LGMRES: BiCGStab-type breakdowns are a property of those methods",
     "while the known finding C06-F8 is open, MDAQuasiNewton configurations are held to oracles (1)-(3) on the couplings "
     "inside cycles only (the other outputs are those of SciPy's last trial point)",
+    "hand-off sequences: the first MDA (plain Jacobi, NO_SCALING) stops with ||residual||_2 <= 100 tol, i.e. a max-norm error "
+    "<= 100 tol/(1-q); plain Jacobi / Gauss-Seidel sweeps contract that error by q per sweep, so the last MDA gets the k "
+    "sweeps with sqrt(n)(1+q) q^k 100/(1-q) <= 1, plus 3; they are run without warm start (with warm_start every sub-MDA "
+    "restarts from its own previous solution instead of its predecessor's result, which the estimate does not cover)",
+    "MDAGSNewton configurations may use 'simplified' discipline Jacobians (coupling partials halved, still contractive): the "
+    "Newton stage then converges linearly; they always get the full iteration budget",
     "parallel execution (n_processes > 1) belongs to C13",
 ]
 
